@@ -22,6 +22,125 @@ pub struct C03;
 
 const EMPTY_BLOCK_QUERIES: &[&str] = &["(identifier) @_ignored", "(module)", "(pass_statement)", "(call function: (_) @_f)"];
 
+/// Matches whose captured nodes are different syntax nodes of one kind that start at the same
+/// position (left-nested chains `a.b.c.d`, `1 + 2 + 3`, `f(1)(2)`, `x[0][1]`): the block links
+/// the graph nodes of the two captured nodes, so every match leaves its own edge.
+fn nested_chain_edges(rng: &mut Rng, out: &mut Out) {
+    let (kind, field, links): (&str, &str, &[&str]) = *rng.pick(&[
+        ("attribute", "object", &[".b", ".c", ".d", ".e", ".f", ".g"][..]),
+        ("binary_operator", "left", &[" + 2", " - 3", " * 4", " + 5", " - 6", " * 7"][..]),
+        ("call", "function", &["(1)", "(2, 3)", "()", "(k=4)", "(5)", "(6)"][..]),
+        ("subscript", "value", &["[0]", "[1]", "[k]", "[2:3]", "[4]", "[5]"][..]),
+    ]);
+    let mut source = String::new();
+    for _ in 0..rng.range(1, 3) {
+        let depth = rng.range(2, 6);
+        let mut line = String::from(*rng.pick(&["a", "x1", "é"]));
+        for d in 0..depth {
+            line.push_str(links[d % links.len()]);
+        }
+        if rng.chance(1, 3) {
+            line = format!("y = {}", line);
+        }
+        source.push_str(&line);
+        source.push('\n');
+    }
+    let with_attr = rng.chance(1, 2);
+    let text = format!(
+        "({k}) @a\n{{\n  node @a.zz_n\n  attr (@a.zz_n) self = @a\n}}\n({k} {f}: ({k}) @inner) @outer\n{{\n  edge @outer.zz_n -> @inner.zz_n\n{attr}}}\n",
+        k = kind,
+        f = field,
+        attr = if with_attr { "  attr (@outer.zz_n -> @inner.zz_n) inner_end = (end-column @inner)\n" } else { "" }
+    );
+    let tree = parse_python(&source);
+    let ti = TreeInfo::new(&tree);
+    if ti.anomaly.is_some() {
+        out.inconclusive("tree-sitter anomaly");
+        return;
+    }
+    let pattern = format!("({k} {f}: ({k}) @inner) @outer", k = kind, f = field);
+    let sq = match crate::oracle::matches::compile(&pattern) {
+        Ok(q) => q,
+        Err(e) => {
+            out.inconclusive(&format!("oracle could not compile a query: {}", e));
+            return;
+        }
+    };
+    let ms = crate::oracle::matches::enumerate(&sq, &tree, &source, &ti);
+    let mut want: Vec<(usize, usize)> = Vec::new();
+    for m in &ms.matches {
+        if let (Some(MVal::Syn(o)), Some(MVal::Syn(i))) = (m.caps.get("outer"), m.caps.get("inner")) {
+            want.push((*o, *i));
+        }
+    }
+    want.sort();
+    want.dedup();
+    let no_globals = BTreeMap::new();
+    let case = || case_json(&text, &source, &no_globals);
+    let loaded = match exec::load(&text) {
+        Loaded::Ok(f) => f,
+        _ => {
+            out.violation("C03:load-rejected", "chain-edge file rejected", case());
+            return;
+        }
+    };
+    let functions = stdlib();
+    for lazy in [false, true] {
+        let mode = if lazy { "lazy" } else { "strict" };
+        let rep = exec::execute(&loaded, &tree, &source, &ti, &no_globals, &functions, &ExecOpts::new(lazy));
+        out.eval();
+        match &rep.real {
+            Real::Graph(g) => {
+                let self_of = |n: usize| -> Option<usize> {
+                    match g.nodes.get(n).and_then(|x| x.attrs.get("self")) {
+                        Some(MVal::Syn(i)) => Some(*i),
+                        _ => None,
+                    }
+                };
+                let mut got: Vec<(usize, usize)> = Vec::new();
+                for (n, node) in g.nodes.iter().enumerate() {
+                    for (sink, attrs) in &node.edges {
+                        match (self_of(n), self_of(*sink)) {
+                            (Some(o), Some(i)) => {
+                                got.push((o, i));
+                                if with_attr && attrs.get("inner_end") != Some(&MVal::Int(ti.nodes[i].end.1 as u32)) {
+                                    out.violation(&format!("C03:block-runs-differ:{}", mode), &format!("the edge of the match (outer {:?}, inner {:?}) carries {:?}", ti.nodes[o].kind, ti.nodes[i].kind, attrs), case());
+                                    return;
+                                }
+                            }
+                            _ => {
+                                out.violation(&format!("C03:block-runs-differ:{}", mode), "an edge between nodes that no match created", case());
+                                return;
+                            }
+                        }
+                    }
+                }
+                got.sort();
+                if got != want {
+                    let missing: Vec<String> = want.iter().filter(|w| !got.contains(w)).map(|(o, i)| format!("({} at {:?}..{:?} -> {} at {:?}..{:?})", ti.nodes[*o].kind, ti.nodes[*o].start, ti.nodes[*o].end, ti.nodes[*i].kind, ti.nodes[*i].start, ti.nodes[*i].end)).collect();
+                    out.violation(&format!("C03:block-runs-differ:{}", mode), &format!("{} matches of the edge stanza, {} edges in the graph; matches whose edge is missing: {}", want.len(), got.len(), crate::util::trunc(&missing.join(", "), 500)), case());
+                    return;
+                }
+            }
+            Real::Error(e, _) => {
+                out.violation(&format!("C03:probe-failed:{}", mode), &format!("chain-edge program failed: {}", crate::util::trunc(&e.display, 400)), case());
+                return;
+            }
+            Real::Panic(p) => {
+                out.violation(&format!("C03:panic:{}", mode), &format!("{}: {}", p.location, p.message), case());
+                return;
+            }
+            Real::Unreadable(s) => {
+                out.violation("C03:unreadable-graph", s, case());
+                return;
+            }
+        }
+    }
+    out.feat("edges_between_captured_nodes_of_one_kind_and_start_position");
+    out.feat_n("chain_edge_matches", want.len() as u64);
+    out.nontrivial(mix(&[hash_str(&text), hash_str(&source)]));
+}
+
 fn probe_file(rng: &mut Rng) -> GFile {
     let n = rng.range(2, 8);
     let mut items = Vec::new();
@@ -131,7 +250,11 @@ impl Prop for C03 {
             Tier::Thorough => 40_000,
         }
     }
-    fn run_case(&self, _cfg: &RunCfg, _idx: usize, rng: &mut Rng, out: &mut Out) {
+    fn run_case(&self, _cfg: &RunCfg, idx: usize, rng: &mut Rng, out: &mut Out) {
+        if idx % 12 == 7 {
+            nested_chain_edges(rng, out);
+            return;
+        }
         let mut file = probe_file(rng);
         file.number();
         let wild = rng.chance(1, 4);
